@@ -153,9 +153,9 @@ Print Assumptions C01_prec_decl_stmt_parses.
 (* ---------- the parseSlice defect (fixed in /repo by commit 16971a1; e_fix_slice = false is the code before it) ---------- *)
 Definition env_code : env :=
   {| e_funcs := [(s_ "print", false)]; e_vars := [s_ "arr"; s_ "a"; s_ "b"; s_ "c"];
-     e_tyerr := fun _ _ _ => false; e_fix_slice := false |}.
+     e_arity := []; e_tyerr := fun _ _ _ => false; e_fix_slice := false |}.
 Definition env_fixed : env :=
-  {| e_funcs := e_funcs env_code; e_vars := e_vars env_code; e_tyerr := fun _ _ _ => false; e_fix_slice := true |}.
+  {| e_funcs := e_funcs env_code; e_vars := e_vars env_code; e_arity := []; e_tyerr := fun _ _ _ => false; e_fix_slice := true |}.
 Definition tk (t : toktype) (s : string) : token := {| ttype := t; tlit := s_ s |}.
 
 (* print arr[0:1] -3 *)
